@@ -10,7 +10,7 @@ from tree_sitter import Node
 from nix_manipulator.expressions.comment import Comment
 from nix_manipulator.expressions.expression import NixExpression, TypedExpression
 from nix_manipulator.expressions.identifier import Identifier
-from nix_manipulator.expressions.layout import empty_line, linebreak
+from nix_manipulator.expressions.layout import empty_line, linebreak, point_row
 from nix_manipulator.expressions.primitive import Primitive
 from nix_manipulator.expressions.trivia import (
     append_comment_between,
@@ -142,7 +142,7 @@ class Inherit(TypedExpression):
                     comment = Comment.from_cst(child)
                     inline_to_prev = (
                         last_name_node is not None
-                        and child.start_point.row == last_name_node.end_point.row
+                        and point_row(child.start_point) == point_row(last_name_node.end_point)
                         and names
                     )
                     if inline_to_prev:
@@ -179,7 +179,7 @@ class Inherit(TypedExpression):
                     )
                     if (
                         last_name_node is not None
-                        and comment_node.start_point.row == last_name_node.end_point.row
+                        and point_row(comment_node.start_point) == point_row(last_name_node.end_point)
                     ):
                         comment.inline = True
                     prev_trailing = comment_node
